@@ -152,9 +152,9 @@ let handler r =
   | "fmax" -> let xl = num r in let xr = num r in let tol = num r in let e = parse_fexpr r in
       put_res (fun (x, tr) -> put_f x; put_fl tr) (find_maximum fops (fun1 e) xl xr tol)
   | "fmin_default" -> let xl = num r in let xr = num r in let e = parse_fexpr r in
-      put_res (fun (x, tr) -> put_f x; put_fl tr) (find_minimum fops (fun1 e) xl xr 3e-8)
+      put_res (fun (x, tr) -> put_f x; put_fl tr) (find_minimum_default fops (fun1 e) xl xr)
   | "fmax_default" -> let xl = num r in let xr = num r in let e = parse_fexpr r in
-      put_res (fun (x, tr) -> put_f x; put_fl tr) (find_maximum fops (fun1 e) xl xr 3e-8)
+      put_res (fun (x, tr) -> put_f x; put_fl tr) (find_maximum_default fops (fun1 e) xl xr)
   | "fpair" -> let xl = num r in let xr = num r in let tol = num r in let e = parse_fexpr r in
       let f = fun1 e in
       (match find_maximum fops f xl xr tol, find_minimum fops (fun x -> -1.0 *. f x) xl xr tol with
